@@ -153,7 +153,7 @@ def _loss_case(draw, tier):
         for i, t in enumerate(rrow):
             if eos is not None and t == eos:
                 break
-            if t < 0:
+            if t < 0 or t >= V:
                 rrow[i] = draw(st.integers(0, A - 1))
     use_w = draw(st.booleans())
     return {
